@@ -170,6 +170,14 @@ func c05(x *ctx) {
 		for j := 0; j < n; j++ {
 			pols = append(pols, fmt.Sprintf("dev:%d", j))
 		}
+		// deviation bound 2 (thorough): every pair of range executions reversed, for runs with few of them
+		if thorough && rr.RangeExecs <= 14 && caseSize(refCases[i]) < 400 {
+			for j1 := 0; j1 < rr.RangeExecs; j1++ {
+				for j2 := j1 + 1; j2 < rr.RangeExecs; j2++ {
+					pols = append(pols, fmt.Sprintf("dev:%d,%d", j1, j2))
+				}
+			}
+		}
 		for _, pol := range pols {
 			c := *refCases[i]
 			c.Order = pol
@@ -261,7 +269,8 @@ func c05(x *ctx) {
 			ReplayDoc{Cfg: "default", Files: files, Argv: argv, Order: c.policy, Observed: head(first, 1500), Expected: "identical output on every run; another run printed:\n" + head(second, 1500)})
 	}
 	x.validateAgainstReal(recs, 40)
-	r.Bounds = map[string]any{"programs": len(progs), "modes": len(modes), "policies": "sorted, reversed, rot:1, rot:3, dev:j for all j < range executions (cap " + fmt.Sprint(maxDev) + ")",
+	r.Extra["aba_checks"] = len(refCases)
+	r.Bounds = map[string]any{"programs": len(progs), "modes": len(modes), "policies": "sorted, reversed, rot:1, rot:3, dev:j for all j < range executions (cap " + fmt.Sprint(maxDev) + "); thorough: dev:j1,j2 for all pairs on programs under 400 bytes with <= 14 range executions",
 		"real_runs_per_confirmation": runsCap}
 	r.Sample(map[string]any{"program": progs[0].Name, "mode": "--llm-define", "policy": "dev:3 (only the 4th executed range statement iterates in reverse)"})
 	r.Sample(map[string]any{"program": "./g_extra_4.rb", "mode": "plain", "policy": "reversed", "note": "two variables narrowed in one condition, with else"})
